@@ -417,7 +417,7 @@ def _one_axis_tables(ck, F, ce, R):
     ok_anchor = len(caps) == 1 and all(k in names for k in ("absolute_column", "absolute_row", "new_column", "new_row")) and len(empties) >= 2
     ck.ob(R, "cycle_endpoint|one-axis anchors", ok_anchor, "cycle_endpoint: flags / is_empty tests / result allocation not found", ce.file, ce.line)
     if not ok_anchor:
-        return
+        return names
     # start at the is_empty test that decides the branch: the last pair of is_empty calls dominating the allocation
     dec = [bi for bi, t in empties if ce.dominates(bi, caps[0]) or caps[0] in ce.reachable_from(bi)]
     dec = [bi for bi in dec if not any(ce.dominates(o, bi) and o != bi and caps[0] in ce.reachable_from(o) and False for o in dec)]
@@ -436,7 +436,7 @@ def _one_axis_tables(ck, F, ce, R):
             start = bi
     if start is None:
         ck.ob(R, "cycle_endpoint|one-axis start", False, "the `column.is_empty()` test that selects the endpoint shape was not found", ce.file, ce.line)
-        return
+        return names
     for shape, col_empty, row_empty in (("row-only", True, False), ("column-only", False, True)):
         def hook(I, t, argv, st, env, col_empty=col_empty, row_empty=row_empty):
             q = ce.callee_q(t) or ""
@@ -482,6 +482,7 @@ def _one_axis_tables(ck, F, ce, R):
                   "one-axis reference (an absolute %s becomes a fixed point, or the marker goes to the missing axis)"
                   % (shape, "with" if had else "without", "with" if has else "without", nc, nr, "row like $5:$5" if shape == "row-only" else "column like $D:$D"),
                   f, l, sample={"shape": shape, "in": [a, r], "out": [nc, nr]})
+    return names
 
 
 def table_cycle(ck, F):
@@ -516,7 +517,9 @@ def table_cycle(ck, F):
     ce = ck.need(F.one, "lexer::util::cycle_endpoint")
     nsc = ce.calls_to("lexer::util::next_state")
     ck.ob(R, "cycle_endpoint|uses-next_state", len(nsc) == 1, "cycle_endpoint calls next_state %d times" % len(nsc), ce.file, ce.line)
-    _one_axis_tables(ck, F, ce, R)
+    roles = _one_axis_tables(ck, F, ce, R) or {}
+    col_name = ce.local_name(roles["column"]) if "column" in roles else "column"
+    row_name = ce.local_name(roles["row"]) if "row" in roles else "row"
     # what is appended to `result`
     # the String the function returns (found by dataflow into the return place, not by its name)
     res = []
@@ -588,11 +591,11 @@ def table_cycle(ck, F):
             ck.ob(R, "cycle_endpoint|push|only-dollar", ok, "cycle_endpoint pushes %s into the result (only '$' markers may be added)" % (d,), f, l,
                   sample={"append": "push", "value": str(d)})
         elif k == "extend-map":
-            ok = d[0] == "column" and d[1] == ("to_ascii_uppercase",)
+            ok = d[0] == col_name and d[1] == ("to_ascii_uppercase",)
             ck.ob(R, "cycle_endpoint|column-letters", ok, "column letters are rebuilt from %s through %s (only letter case may change)" % d, f, l,
                   sample={"append": "extend(map)", "source": d[0], "map": list(d[1])})
         elif k == "extend_from_slice":
-            ok = d == "row"
+            ok = d == row_name
             ck.ob(R, "cycle_endpoint|row-digits", ok, "row digits are appended from `%s`, not from the row slice" % d, f, l,
                   sample={"append": "extend_from_slice", "source": d})
         else:
